@@ -215,11 +215,11 @@ impl<D: Dec> Walker<D> {
             self.prev_was_err = got < 16;
             if self.d != *fresh {
                 let key = format!("{:?}", self.d);
-                if !out.judged.contains_key(&key) {
+                if !out.judged.contains_key(&key) && out.judged.len() < 300 {
                     let v = first_behavioural_difference(&self.d);
                     out.judged.insert(key.clone(), v);
                 }
-                if let Some((cont, want, gotc)) = out.judged[&key].clone() {
+                if let Some((cont, want, gotc)) = out.judged.get(&key).cloned().flatten() {
                     out.violations.push((
                         format!(
                             "C07|{}|not-initial-after|seg=[{}]|result={}|state={:?}",
@@ -288,6 +288,7 @@ pub fn run<D: Dec>(rep: &mut Report) {
     let mut err_then_cont: BTreeSet<String> = BTreeSet::new();
     let mut twin_checks = 0u64;
     let mut structural_only = 0u64;
+    let mut behavioural_probes = 0u32; // bounded: a tree with a counter in its state makes every state differ from new()
     let mut nontrivial: BTreeSet<(String, u8)> = BTreeSet::new();
     while let Some(name) = queue.pop_front() {
         let (d, path, run) = states[&name].clone();
@@ -327,7 +328,8 @@ pub fn run<D: Dec>(rep: &mut Report) {
             }
             nontrivial.insert((name.clone(), b));
             // non-None: must be back in the initial condition …
-            if dd != fresh {
+            if dd != fresh && behavioural_probes < 3000 {
+                behavioural_probes += 1;
                 match first_behavioural_difference(&dd) {
                     Some((cont, want, gotc)) => rep.violate(
                         format!("C07|{}|not-initial-after|seg=[{}]|result={}|state={:?}", set_name(set), hex_bytes(&hist), enc_res_str(e, &uni), dd),
@@ -489,10 +491,11 @@ pub fn run<D: Dec>(rep: &mut Report) {
         while h < n_hist {
             let mut rng = Rng::fork(seed, (h as u64) << 8 | 0x70 | set as u64);
             let which = [0usize, 1, 3][h % 3];
-            let bytes = typist.generate(which, &mut rng, hist_len);
+            let long = h < 16; // sixteen long histories: anything that only shows after many bytes
+            let bytes = typist.generate(which, &mut rng, if long { hist_len * 400 } else { hist_len });
             let mut w: Walker<D> = Walker::new();
             for b in bytes {
-                if !w.step(b, &mut ft, &fresh, &uni2, true, &mut out) {
+                if !w.step(b, &mut ft, &fresh, &uni2, !long, &mut out) {
                     break;
                 }
             }
